@@ -18,7 +18,9 @@ FLOORS = {
         "T2": 3,
         "T3": 9,
         "T4": 2,
-        "F1": 1
+        "F1": 1,
+        "G1": 1,
+        "T6": 9
     },
     "C04": {
         "T1": 13,
@@ -30,7 +32,8 @@ FLOORS = {
         "S1": 1,
         "S2": 1,
         "T4": 1,
-        "F1": 1
+        "F1": 1,
+        "G1": 1
     },
     "C07": {
         "I1": 6,
@@ -77,7 +80,8 @@ FLOORS = {
     "C13": {
         "B-guard": 20,
         "B-immut": 53,
-        "B-single": 38
+        "B-single": 38,
+        "G1": 9
     },
     "C14": {
         "A-exit": 27,
@@ -172,6 +176,8 @@ def c13(prog, rep):
     rule_c13(prog, rep)
     from .lock import rule_recursive
     rule_recursive(prog, rep, rid='B-recursive')
+    from .globrules import rule_g1
+    rule_g1(prog, rep, CONTAINER_UNITS)
     rep.explanation = (
         'Guarded-by (lockset) discipline: for every container operation C13 names (insert/put, get, remove/pop, '
         'clear, toarray/tostring of tree table, hash table, list table, list/queue/stack, vector) every access to '
@@ -375,6 +381,8 @@ def c01(prog, rep):
     from . import bufrules as BW
     BW.rule_fmt_complete(prog, rep, [T.UNIT])
     BW.rule_valist_once(prog, rep, [T.UNIT])
+    from .globrules import rule_g1
+    rule_g1(prog, rep, [T.UNIT])
     rep.explanation = (
         'Structural clauses of "exact sorted map" visible in code shape, over all CFG paths of qtreetbl.c: T1 node keys are only '
         'compared through tbl->compare (one orientation for all 7 call sites), copied, freed or moved - never inspected directly '
@@ -433,6 +441,9 @@ def c05(prog, rep):
     from . import tree as T
     T.rule_t8(prog, rep, units=[CH.UNIT], any_size=True)    # qhashtbl accepts empty values: a NULL copy of one is not ENOMEM
     T.rule_t13(prog, rep, rid='S8', unit=CH.UNIT, node='qhashtbl_obj_s', primary=())
+    O.rule_m5(prog, rep, [CH.UNIT])      # an empty value is a legal value: a resize to zero bytes must not be read as failure
+    from .globrules import rule_g1
+    rule_g1(prog, rep, [CH.UNIT])
     rep.explanation = (
         'Sibling-agreement and protocol rules on qhashtbl.c: S1 put/get/remove compute the chain slot from the same closed '
         'expression (hash function, length argument, modulus field, obtained by expanding local definitions) and the walk resumes '
